@@ -9,18 +9,9 @@ EXTENDS C09_Analyses
 CONSTANT Bug
 VARIABLE tree
 
-x == V("x")  y == V("y")  z == V("z")  ff == V("f")  tt == V("t")  oo == V("o")
-Trees == {
-  Call(ff, << x >>),
-  CallKw(ff, << x >>, << KwArg("k1", y) >>),
-  Look(oo, "p"),
-  N("Sum", << CSE0(N("Product", << x, y >>)), CSE0(N("Product", << x, y >>)) >>),
-  B("Sub", tt, N("Slice", << x, NoneE, y >>)),
-  N("Product", << N("Sum", << x, y >>), N("Sum", << x, y >>) >>) }
+Trees == NegTrees
 
 Init == tree \in Trees
 Next == UNCHANGED tree
-NegRefines == /\ DepsImplRefinesB(tree, Bug)
-              /\ NodeCountImplRefinesB(tree, Bug)
-              /\ FlopsImplRefinesB(tree, Bug)
+NegRefines == AllRefineB(tree, Bug)
 =============================================================================
